@@ -428,6 +428,7 @@ func (ex *explorer) worker(w int) (err error) {
 			break
 		}
 		i.resetSched()
+		i.tick = 0
 		p := newPathCtx(i, it, ex.cfg.StepBudget)
 		i.path = p
 		out, detail := i.runGuarded(func() { call(i, nil, token.NoPos, harness, nil) })
